@@ -40,6 +40,14 @@ def run(res, tier, seed, widen=1):
     for _ in range((600 if tier == "quick" else 15000) * widen):
         payloads.append(bytes(rng.choice(frag_alpha) for _ in range(rng.choice([1, 3, 8, 20, 60]))))
     payloads += [b"1.7.0(123", b"1.7.0(1)x", b"a(1)(2", b"(", b")", b"a(", b"a()b", b"a(1)(", b"1.7.0(1*kW*x)", b"1.7.0(" + b"(" * 2000, b"1.7.0(1)" * 3000]
+    # numbers that Python's float()/int() treat specially (overflow to inf, inf/nan literals, underscores, blanks,
+    # exponents, signs), with every unit class: float(...) * 1000 -> int(...) raises OverflowError / ValueError
+    nums = [b"1e999", b"9e9303", b"inf", b"-inf", b"Infinity", b"nan", b"-nan", b"1e308", b"1.8e308", b"1e-400", b"1_0.5", b" 12 ",
+            b"+5", b"-0", b"0x10", b"1e", b".5", b"5.", b"1,5", b"\t7", b"12e3", b"1E5", b"00.303", b"1e22", b"1e23"]
+    for num in nums:
+        for unit in (b"kW", b"kWh", b"kvar", b"kvarh", b"V", b"A", b"var", b"W", b""):
+            payloads.append(b"1-0:1.7.0(" + num + (b"*" + unit if unit else b"") + b")\r\n")
+    res.count("float_edge_texts", len(nums) * 9)
     cases = [(rng.choice([None, 0, 1, 2, 3, 4, 5, 6]), p) for p in payloads]
     # every remembered decoder on a slice
     for p in payloads[:150 if tier == "quick" else 2000]:
